@@ -9,6 +9,7 @@
 #include <etl/_cwchar/wint_t.hpp>
 #include <etl/_ios/typedefs.hpp>
 #include <etl/_strings/cstr.hpp>
+#include <etl/_type_traits/is_same.hpp>
 
 namespace etl {
 
@@ -25,7 +26,14 @@ struct char_traits_base {
 
     static constexpr auto eq(char_type a, char_type b) noexcept -> bool { return a == b; }
 
-    static constexpr auto lt(char_type a, char_type b) noexcept -> bool { return a < b; }
+    static constexpr auto lt(char_type a, char_type b) noexcept -> bool
+    {
+        if constexpr (etl::is_same_v<char_type, char>) {
+            return static_cast<unsigned char>(a) < static_cast<unsigned char>(b);
+        } else {
+            return a < b;
+        }
+    }
 
     static constexpr auto compare(char_type const* lhs, char_type const* rhs, size_t count) -> int
     {
@@ -34,10 +42,10 @@ struct char_traits_base {
         }
 
         for (size_t i = 0; i < count; ++i) {
-            if (lhs[i] < rhs[i]) {
+            if (lt(lhs[i], rhs[i])) {
                 return -1;
             }
-            if (lhs[i] > rhs[i]) {
+            if (lt(rhs[i], lhs[i])) {
                 return 1;
             }
         }
